@@ -238,11 +238,12 @@ func (s *Server) didChange(ctx context.Context, docURI protocol.DocumentURI, cha
 			}
 		}
 		s.documents.Store(docURI, content)
-		if s.workspace != nil {
-			if path := uriToPath(docURI); path != "" {
+		if path := uriToPath(docURI); path != "" {
+			if s.workspace != nil {
 				s.workspace.UpdateFile(path, content)
-				s.loader.InvalidateFile(path)
 			}
+			// the include cache is shared by every document, with or without a workspace
+			s.loader.InvalidateFile(path)
 		}
 		version := s.nextDocVersion(docURI)
 		go s.publishDiagnosticsVersion(ctx, docURI, content, version)
@@ -265,15 +266,16 @@ func (s *Server) DidClose(ctx context.Context, params *protocol.DidCloseTextDocu
 func (s *Server) DidSave(ctx context.Context, params *protocol.DidSaveTextDocumentParams) error {
 	s.payeeTemplatesCache.Delete(params.TextDocument.URI)
 
-	if s.workspace != nil {
-		if path := uriToPath(params.TextDocument.URI); path != "" {
+	if path := uriToPath(params.TextDocument.URI); path != "" {
+		if s.workspace != nil {
 			if content, ok := s.GetDocument(params.TextDocument.URI); ok {
 				s.workspace.UpdateFile(path, content)
 			} else if data, err := os.ReadFile(path); err == nil {
 				s.workspace.UpdateFile(path, string(data))
 			}
-			s.loader.InvalidateFile(path)
 		}
+		// the include cache is shared by every document, with or without a workspace
+		s.loader.InvalidateFile(path)
 	}
 	return nil
 }
